@@ -39,7 +39,7 @@ func FQDN(domain string) string {
 // domains are simply converted to local-case using strings.ToLower, but the
 // error is also returned.
 func ForLookup(domain string) (string, error) {
-	uDomain, err := idna.ToUnicode(LowerALabels(domain))
+	uDomain, err := ALabelsToUnicode(domain)
 	if err != nil {
 		return strings.ToLower(domain), err
 	}
@@ -86,6 +86,41 @@ func LowerALabels(domain string) string {
 		return domain
 	}
 	return strings.Join(labels, ".")
+}
+
+// ALabelsToUnicode converts the A-labels of the domain, written in any letter
+// case, to U-labels and leaves all other labels untouched.
+//
+// A label that carries the ACE prefix is an A-label only if it is what its
+// decoded form is encoded to (RFC 5890 Section 2.3.2.1, RFC 5891 Section
+// 5.4). Labels that fail this test ("fake A-labels") do not stand for another
+// name: "xn--example-" decodes to the all-ASCII "example", "xn--xn--e1aybc-"
+// to a string that carries the ACE prefix itself and "xn--" to an empty
+// label. They are kept as they are, in lower case, so that converting the
+// result again does not change it.
+//
+// The error is returned if a label with the ACE prefix cannot be decoded.
+func ALabelsToUnicode(domain string) (string, error) {
+	domain = LowerALabels(domain)
+	if !strings.Contains(domain, "xn--") {
+		return domain, nil
+	}
+
+	labels := strings.Split(domain, ".")
+	for i, label := range labels {
+		if !strings.HasPrefix(label, "xn--") {
+			continue
+		}
+		uLabel, err := idna.ToUnicode(label)
+		if err != nil {
+			return domain, err
+		}
+		if aLabel, err := idna.ToASCII(uLabel); err != nil || aLabel != label {
+			continue
+		}
+		labels[i] = uLabel
+	}
+	return strings.Join(labels, "."), nil
 }
 
 // Equal reports whether domain1 and domain2 are equivalent as defined by
